@@ -24,27 +24,28 @@ variable {α : Type} {m : Nat} [Add α] [Sub α] [Mul α] [Div α] [LT α] [Deci
 
 /-- For any grouping of the columns that is consistent with the per-column delays and covers every column,
     cell `(r, c)` of the grouped result is the linear interpolation of the single-column series
-    `data[:, c:c+1]` at `times[r] + delays[c]` (and no cell is left uninitialised). -/
-theorem resampleGroups_spec (l : List (Sample α m)) (hl : 0 < l.length) (nt : List α) (delays : Vector α m)
-    (groups : List (α × List (Fin m))) (hc : Consistent delays groups) (hcov : Covers groups) :
-    resampleGroups l hl nt groups =
+    `data[:, c:c+1]` at `times[r] + delays[c]` (and no cell is left uninitialised).  Both variants of
+    `interpolate` (`hold`, see the model header). -/
+theorem resampleGroups_spec (hold : Bool) (l : List (Sample α m)) (hl : 0 < l.length) (nt : List α)
+    (delays : Vector α m) (groups : List (α × List (Fin m))) (hc : Consistent delays groups) (hcov : Covers groups) :
+    resampleGroups hold l hl nt groups =
       nt.map (fun t => Vector.ofFn fun c : Fin m =>
-        some ((interpRow (selectCols [c] l) (by rw [selectCols_length]; exact hl) (t + delays[c]))[0])) :=
-  resampleGroups_spec' l hl nt delays groups hc hcov
+        some ((interp hold (selectCols [c] l) (by rw [selectCols_length]; exact hl) (t + delays[c]))[0])) :=
+  resampleGroups_spec' hold l hl nt delays groups hc hcov
 
 /-- Resampling with grouped per-sensor delays equals the column-by-column result, for any grouping
     (consistent with the delays, covering the columns), any number of columns and samples. -/
-theorem grouped_eq_columnwise (l : List (Sample α m)) (hl : 0 < l.length) (nt : List α) (delays : Vector α m)
-    (groups : List (α × List (Fin m))) (hc : Consistent delays groups) (hcov : Covers groups) :
-    resampleGroups l hl nt groups = resampleGroups l hl nt (singletons delays) := by
-  rw [resampleGroups_spec l hl nt delays groups hc hcov,
-      resampleGroups_spec l hl nt delays _ (singletons_consistent delays) (singletons_covers delays)]
+theorem grouped_eq_columnwise (hold : Bool) (l : List (Sample α m)) (hl : 0 < l.length) (nt : List α)
+    (delays : Vector α m) (groups : List (α × List (Fin m))) (hc : Consistent delays groups) (hcov : Covers groups) :
+    resampleGroups hold l hl nt groups = resampleGroups hold l hl nt (singletons delays) := by
+  rw [resampleGroups_spec hold l hl nt delays groups hc hcov,
+      resampleGroups_spec hold l hl nt delays _ (singletons_consistent delays) (singletons_covers delays)]
 
 /-- ... in particular for the grouping the code computes with its `delay_to_cols` dict. -/
-theorem groupByDelay_eq_columnwise [BEq α] [LawfulBEq α] (l : List (Sample α m)) (hl : 0 < l.length)
+theorem groupByDelay_eq_columnwise [BEq α] [LawfulBEq α] (hold : Bool) (l : List (Sample α m)) (hl : 0 < l.length)
     (nt : List α) (delays : Vector α m) :
-    resampleGroups l hl nt (groupByDelay delays) = resampleGroups l hl nt (singletons delays) :=
-  grouped_eq_columnwise l hl nt delays _ (groupByDelay_consistent delays) (groupByDelay_covers delays)
+    resampleGroups hold l hl nt (groupByDelay delays) = resampleGroups hold l hl nt (singletons delays) :=
+  grouped_eq_columnwise hold l hl nt delays _ (groupByDelay_consistent delays) (groupByDelay_covers delays)
 
 end Grouped
 
@@ -67,19 +68,45 @@ example : Consistent (#v[(1 : ℚ), 2, 1]) [((1 : ℚ), [2, 0]), (2, [1])] ∧
 section Field
 variable {K : Type} [Field K] [LinearOrder K] [IsStrictOrderedRing K] {m : Nat}
 
+/-- the series shapes on which `interpolate` is well behaved: two samples, or one sample in the guarded variant -/
+def Regular (hold : Bool) (l : List (Sample K m)) : Prop := 2 ≤ l.length ∨ (hold = true ∧ l.length = 1)
+
+theorem Regular.pos {hold : Bool} {l : List (Sample K m)} (h : Regular hold l) : 0 < l.length := by
+  rcases h with h | ⟨_, h⟩ <;> omega
+
 /-- a query before the first timestamp returns the first row -/
-theorem clamp_below (l : List (Sample K m)) (hl : 0 < l.length) (hs : Sorted l) (t : K) (ht : t < l[0].t) :
-    interpRow l hl t = l[0].row := interpRow_below hl hs t ht
+theorem clamp_below (hold : Bool) (l : List (Sample K m)) (hl : 0 < l.length) (hs : Sorted l) (t : K)
+    (ht : t < l[0].t) : interp hold l hl t = l[0].row := by
+  unfold interp
+  split
+  · rfl
+  · exact interpRow_below hl hs t ht
 
 /-- a query after the last timestamp returns the last row -/
-theorem clamp_above (l : List (Sample K m)) (hl : 0 < l.length) (t : K)
-    (ht : (l[l.length - 1]'(by omega)).t < t) : interpRow l hl t = (l[l.length - 1]'(by omega)).row :=
-  interpRow_above hl t ht
+theorem clamp_above (hold : Bool) (l : List (Sample K m)) (hl : 0 < l.length) (t : K)
+    (ht : (l[l.length - 1]'(by omega)).t < t) : interp hold l hl t = (l[l.length - 1]'(by omega)).row := by
+  unfold interp
+  split
+  · rename_i h
+    have h1 : l.length = 1 := by simpa using (Bool.and_eq_true _ _ ▸ h).2
+    simp [h1]
+  · exact interpRow_above hl t ht
 
-/-- Resampling at the original (strictly increasing) timestamps returns the original series. -/
-theorem resample_at_original_times_id (s : TS K m) (h2 : 2 ≤ s.samples.length) (hs : Sorted s.samples) :
-    resample s (times s.samples) = .ok s := by
-  have hl : 0 < s.samples.length := by omega
+/-- interpolation at a sample time returns that sample's row -/
+theorem interp_at_sample (hold : Bool) (l : List (Sample K m)) (hr : Regular hold l) (hs : Sorted l)
+    (i : Nat) (hi : i < l.length) : interp hold l hr.pos l[i].t = l[i].row := by
+  rcases hr with h2 | ⟨hh, h1⟩
+  · rw [interp_eq_interpRow hold h2]; exact interpRow_at_sample h2 hs i hi
+  · subst hh
+    have : i = 0 := by omega
+    subst this
+    exact interp_hold_single h1 _
+
+/-- Resampling at the original (strictly increasing) timestamps returns the original series: from two samples
+    on in the code as found, for every series in the guarded variant. -/
+theorem resample_at_original_times_id (hold : Bool) (s : TS K m) (hr : Regular hold s.samples)
+    (hs : Sorted s.samples) : resample hold s (times s.samples) = .ok s := by
+  have hl : 0 < s.samples.length := hr.pos
   have hinc : strictInc (times s.samples) = true := (sorted_iff_strictInc _).1 hs
   have hne : (times s.samples).isEmpty = false := by
     cases hsm : s.samples with
@@ -96,34 +123,35 @@ theorem resample_at_original_times_id (s : TS K m) (h2 : 2 ≤ s.samples.length)
     · simp [times]
     · intro i h1 h2'
       simp only [times, List.getElem_map, List.map_map, Function.comp_def]
-      rw [interpRow_at_sample h2 hs i h2']
+      rw [interp_at_sample hold samples hr hs i h2']
 
 /-- Linear interpolation stays within the range of the two neighbouring samples: for an in-range query there
     are neighbours `i, i+1` whose timestamps enclose it and, in every column, the interpolated value lies
     between their two values. -/
-theorem lerp_between_neighbours (l : List (Sample K m)) (h2 : 2 ≤ l.length) (hs : Sorted l) (t : K)
+theorem lerp_between_neighbours (hold : Bool) (l : List (Sample K m)) (h2 : 2 ≤ l.length) (hs : Sorted l) (t : K)
     (h0 : l[0].t ≤ t) (h1 : t ≤ (l[l.length - 1]'(by omega)).t) :
     ∃ (i : Nat) (hi : i + 1 < l.length), l[i].t ≤ t ∧ t ≤ l[i + 1].t ∧
       ∀ (c : Nat) (hc : c < m),
-        min l[i].row[c] l[i + 1].row[c] ≤ (interpRow l (by omega) t)[c] ∧
-        (interpRow l (by omega) t)[c] ≤ max l[i].row[c] l[i + 1].row[c] := by
+        min l[i].row[c] l[i + 1].row[c] ≤ (interp hold l (by omega) t)[c] ∧
+        (interp hold l (by omega) t)[c] ≤ max l[i].row[c] l[i + 1].row[c] := by
   have hl : 0 < l.length := by omega
+  rw [interp_eq_interpRow hold h2]
   obtain ⟨lo, hlo, ehi, elo, hx0, hx1⟩ := bracket' h2 hs t h0 h1
   refine ⟨lo, hlo, hx0, hx1, fun c hc => ?_⟩
   rw [interpRow_inrange' hl t (not_lt.2 h0) (not_lt.2 h1) c hc lo (lo + 1) ehi elo hlo (by omega)]
   exact lerp_between _ _ _ _ _ (hs.lt (by omega) hlo (by omega)) hx0 hx1
 
 /-- For every query time (in range or not) each interpolated value lies between two values of its column. -/
-theorem interp_within_global_range (l : List (Sample K m)) (h2 : 2 ≤ l.length) (hs : Sorted l) (t : K)
+theorem interp_within_global_range (hold : Bool) (l : List (Sample K m)) (h2 : 2 ≤ l.length) (hs : Sorted l) (t : K)
     (c : Nat) (hc : c < m) :
     ∃ (i j : Nat) (hi : i < l.length) (hj : j < l.length),
-      l[i].row[c] ≤ (interpRow l (by omega) t)[c] ∧ (interpRow l (by omega) t)[c] ≤ l[j].row[c] := by
+      l[i].row[c] ≤ (interp hold l (by omega) t)[c] ∧ (interp hold l (by omega) t)[c] ≤ l[j].row[c] := by
   have hl : 0 < l.length := by omega
   by_cases h0 : t < l[0].t
-  · exact ⟨0, 0, hl, hl, by rw [interpRow_below hl hs t h0], by rw [interpRow_below hl hs t h0]⟩
+  · exact ⟨0, 0, hl, hl, by rw [clamp_below hold l hl hs t h0], by rw [clamp_below hold l hl hs t h0]⟩
   by_cases h1 : (l[l.length - 1]'(by omega)).t < t
-  · exact ⟨l.length - 1, l.length - 1, by omega, by omega, by rw [interpRow_above hl t h1], by rw [interpRow_above hl t h1]⟩
-  obtain ⟨i, hi, _, _, hcol⟩ := lerp_between_neighbours l h2 hs t (not_lt.1 h0) (not_lt.1 h1)
+  · exact ⟨l.length - 1, l.length - 1, by omega, by omega, by rw [clamp_above hold l hl t h1], by rw [clamp_above hold l hl t h1]⟩
+  obtain ⟨i, hi, _, _, hcol⟩ := lerp_between_neighbours hold l h2 hs t (not_lt.1 h0) (not_lt.1 h1)
   obtain ⟨hmin, hmax⟩ := hcol c hc
   have hi' : i < l.length := by omega
   refine ⟨if l[i].row[c] ≤ l[i + 1].row[c] then i else i + 1, if l[i].row[c] ≤ l[i + 1].row[c] then i + 1 else i,
@@ -137,9 +165,9 @@ theorem interp_within_global_range (l : List (Sample K m)) (h2 : 2 ≤ l.length)
 
 /-- `apply_resample_and_delay` equals its column-wise reference as a whole function: same exceptions, same
     target times, same data (the dict grouping versus one group per column). -/
-theorem applyResampleAndDelay_eq_columnwise [BEq K] [LawfulBEq K] (s : TS K m) (nt : List K) (dflt : K)
+theorem applyResampleAndDelay_eq_columnwise [BEq K] [LawfulBEq K] (hold : Bool) (s : TS K m) (nt : List K) (dflt : K)
     (sd : List (String × K)) (pred : Bool) :
-    applyResampleAndDelay s nt dflt sd pred = applyResampleAndDelayColumnwise s nt dflt sd pred := by
+    applyResampleAndDelay hold s nt dflt sd pred = applyResampleAndDelayColumnwise hold s nt dflt sd pred := by
   unfold applyResampleAndDelay applyResampleAndDelayColumnwise resampleAndDelayWith checked
   split
   · rename_i hl
@@ -155,11 +183,11 @@ theorem applyResampleAndDelay_eq_columnwise [BEq K] [LawfulBEq K] (s : TS K m) (
   · rfl
 
 /-- A zero delay leaves the series unchanged (`apply_delay` with `delay = 0`). -/
-theorem applyDelay_zero_id (s : TS K m) (h2 : 2 ≤ s.samples.length) (hs : Sorted s.samples)
+theorem applyDelay_zero_id (hold : Bool) (s : TS K m) (hr : Regular hold s.samples) (hs : Sorted s.samples)
     (name : String) (idx : List Nat) (hname : lookup s.mapping name = some idx)
     (cols : List (Fin m)) (hidx : toFin m idx = some cols) :
-    applyDelay s name 0 = .ok s := by
-  have hl : 0 < s.samples.length := by omega
+    applyDelay hold s name 0 = .ok s := by
+  have hl : 0 < s.samples.length := hr.pos
   have hinc : strictInc (times s.samples) = true := (sorted_iff_strictInc _).1 hs
   unfold applyDelay checked
   rw [dif_pos hl]
@@ -172,13 +200,13 @@ theorem applyDelay_zero_id (s : TS K m) (h2 : 2 ≤ s.samples.length) (hs : Sort
     · simp [resampleRows, times]
     · intro i h1 h2'
       simp only [List.getElem_zipWith, resampleRows, times, List.getElem_map]
-      have hrow : setCols cols (interpRow (selectCols cols samples) (by rw [selectCols_length]; exact hl)
+      have hrow : setCols cols (interp hold (selectCols cols samples) (by rw [selectCols_length]; exact hl)
           samples[i].t).toList samples[i].row = samples[i].row := by
         apply setCols_self
         · simp
         · intro j hj1 hj2
           simp only [Vector.getElem_toList]
-          rw [interpRow_selectCols cols samples hl _ _ j hj1, interpRow_at_sample h2 hs i h2']
+          rw [interp_selectCols hold cols samples hl _ _ j hj1, interp_at_sample hold samples hr hs i h2']
       rw [hrow]
 
 /-- `apply_time_window` keeps exactly the samples with `min_t ≤ t ≤ max_t` (and the signal mapping). -/
@@ -204,9 +232,12 @@ example : lookup [("a", [0]), ("b", [2, 1])] "b" = some [2, 1] ∧ toFin 3 [2, 1
 -- non-vacuity of the hypotheses of the interpolation theorems
 example : Sorted [(⟨0, #v[1, 5]⟩ : Sample ℚ 2), ⟨1, #v[3, 2]⟩, ⟨4, #v[0, 0]⟩] := by
   simp [Sorted]
--- the two-sample hypothesis cannot be dropped: on a one-sample series the kernel is 0/0 (NaN for doubles,
--- 0 in a field), so interpolation at the only timestamp does not return the data
-example : interpRow [(⟨1, #v[2]⟩ : Sample ℚ 1)] (by simp) 1 = #v[0] := by
+example : Regular false [(⟨0, #v[1, 5]⟩ : Sample ℚ 2), ⟨1, #v[3, 2]⟩, ⟨4, #v[0, 0]⟩] := Or.inl (by simp)
+example : Regular true [(⟨7, #v[1, 5]⟩ : Sample ℚ 2)] := Or.inr ⟨rfl, rfl⟩
+-- `Regular` cannot be dropped for the code as found: on a one-sample series interp1d's kernel is 0/0 (NaN for
+-- doubles, 0 in a field), so interpolation at the only timestamp does not return the data
+example : interp false [(⟨1, #v[2]⟩ : Sample ℚ 1)] (by simp) 1 = #v[0] := by
+  show interpRow [(⟨1, #v[2]⟩ : Sample ℚ 1)] (by simp) 1 = #v[0]
   apply Vector.ext; intro i hi
   have : i = 0 := by omega
   subst this
